@@ -336,21 +336,45 @@ fn sweep_blocks_ip(b: &IpBlocks, v6: bool) -> usize {
             IpBlock::Prefix(p) => { let _ = (p.min(), p.max(), p.addr_len(), p.range()); }
             IpBlock::Range(r) => {
                 let _ = (r.min(), r.max());
-                if v6 { n += r.to_v6_prefixes().take(300).count() } else { n += r.to_v4_prefixes().take(300).count() }
+                if v6 { n += r.to_v6_prefixes().take(300).count() + probe_iter(|| r.to_v6_prefixes()) } else { n += r.to_v4_prefixes().take(300).count() + probe_iter(|| r.to_v4_prefixes()) }
             }
         }
         let _ = if v6 { format!("{}", blk.display_v6()) } else { format!("{}", blk.display_v4()) };
         n += 1;
     }
+    n += probe_iter(|| b.iter());
     let _ = (b.is_empty(), b.contains(b), b.intersection(b).is_empty());
     n
+}
+/// The rest of the iterator protocol on a decoded value's iterator: whatever `next` does, `size_hint`, `nth`, `skip`, `step_by`
+/// and `last` are entry points too (an override of any of them is code of the library), with small steps and with steps far
+/// beyond the end.
+fn probe_iter<I: Iterator>(mk: impl Fn() -> I) -> usize {
+    let _ = mk().size_hint();
+    // steps far beyond the end only where the end is near (stepping through four thousand million AS numbers one by one is what a
+    // default `nth` would do on a block that holds them all)
+    let short = mk().take(100_001).count() <= 100_000;
+    let steps: &[usize] = if short { &[0, 1, 7, 255, 256, 70_000, u32::MAX as usize, usize::MAX] } else { &[0, 1, 7, 255, 256, 70_000] };
+    for &k in steps {
+        let _ = mk().nth(k);
+        let mut it = mk();
+        let _ = it.next();
+        let _ = it.nth(k);
+        let _ = it.next();
+    }
+    let _ = mk().skip(3).next();
+    let _ = mk().step_by(100).take(5).count();
+    if short { let _ = mk().step_by(usize::MAX).take(3).count(); }
+    let _ = mk().take(50).last();
+    12
 }
 fn sweep_blocks_as(b: &AsBlocks) -> usize {
     let mut n = 0;
     for blk in b.iter() {
         let _ = (blk.min(), blk.max(), blk.asn_count(), format!("{blk}"));
-        n += 1;
+        n += 1 + probe_iter(|| blk.iter());
     }
+    n += probe_iter(|| b.iter()) + probe_iter(|| b.iter_asns());
     let _ = (b.is_empty(), b.contains(b), b.asn_count(), format!("{b}"));
     n + b.iter_asns().take(100).count()
 }
@@ -401,6 +425,7 @@ fn sweep_crl(c: &Crl, ctx: &Ctx) -> usize {
     let _ = (c.this_update(), c.next_update(), c.crl_number(), format!("{} {:?}", c.crl_number(), c.crl_number()), c.authority_key_identifier(), c.is_stale(), c.signature());
     let mut n = 8;
     let mut serials = vec![Serial::from(3u64), Serial::from(0x80u64), Serial::from(1u64)];
+    n += probe_iter(|| c.revoked_certs().iter());
     for e in c.revoked_certs().iter() {
         let _ = (e.user_certificate, e.revocation_date, format!("{}", e.user_certificate), String::from(e.user_certificate));
         if serials.len() < 40 { serials.push(e.user_certificate); }
@@ -425,6 +450,7 @@ fn sweep_manifest(m: &Manifest, ctx: &Ctx) -> usize {
     let c = m.content();
     let _ = (c.manifest_number(), format!("{}", c.manifest_number()), c.this_update(), c.next_update(), c.file_hash_alg(), c.len(), c.is_empty(), c.is_stale());
     let mut n = 8;
+    n += probe_iter(|| c.iter());
     for f in c.iter() { let _ = (f.file().len(), f.hash().len()); n += 1; }
     for base in ["rsync://h/m/", "rsync://h/m/dir/sub/", "rsync://h/m/x"] {
         for (u, h) in c.iter_uris(&rsync(base)) { let _ = (u.to_string(), h.as_slice().len(), h.verify(b"x").is_ok(), h.algorithm()); n += 1; }
@@ -442,6 +468,7 @@ fn sweep_roa(r: &Roa, ctx: &Ctx) -> usize {
     let c = r.content();
     let _ = c.as_id();
     let mut n = 2;
+    n += probe_iter(|| c.iter()) + probe_iter(|| c.iter_origins());
     for a in c.iter() { let _ = (a.prefix(), a.is_v4(), a.address(), a.address_length(), a.max_length(), format!("{a}")); n += 1; }
     for o in c.iter_origins() { let _ = format!("{o:?}"); n += 1; }
     for l in [c.v4_addrs(), c.v6_addrs()] {
@@ -462,6 +489,7 @@ fn sweep_aspa(a: &Aspa, ctx: &Ctx) -> usize {
     let _ = (c.customer_as(), c.as_resources().is_present());
     let p = c.provider_as_set();
     let mut n = 3 + p.len().min(1);
+    n += probe_iter(|| p.iter());
     for x in p.iter() { let _ = x; n += 1; }
     let _ = p.to_set().len();
     reenc("AsProviderAttestation::encode_ref", || c.encode_ref().to_captured(Mode::Der));
